@@ -187,13 +187,14 @@ func (t *ArrayType) Default() px.Type {
 func (t *ArrayType) IsAssignable(o px.Type, g px.Guard) bool {
 	switch o := o.(type) {
 	case *ArrayType:
-		// the element type of a type that only has the empty array as instance does not matter
-		return t.size.IsAssignable(o.size, g) && (o.size.max == 0 || GuardedIsAssignable(t.typ, o.typ, g))
+		// the element type of a type that has at most the empty array as instance does not matter (a size may have a
+		// negative maximum: Array[String, -1, -1])
+		return t.size.IsAssignable(o.size, g) && (o.size.max <= 0 || GuardedIsAssignable(t.typ, o.typ, g))
 	case *TupleType:
 		if !t.size.IsAssignable(o.givenOrActualSize, g) {
 			return false
 		}
-		if o.givenOrActualSize.max == 0 {
+		if o.givenOrActualSize.max <= 0 {
 			return true
 		}
 		if len(o.types) == 0 {
